@@ -74,6 +74,20 @@ pub open spec fn accepted(a: nat, len: nat, h: raw::Header) -> bool {
     a % 4 == 0 && len >= 24 && header_verdict(h) is None && implied_len(a, h) <= len
 }
 
+// the complete verdict table of format version 1, in the order the checks are made: which error kind a buffer gets, None = accepted
+pub open spec fn parse_verdict(a: nat, len: nat, h: raw::Header) -> Option<CacheErrorKind> {
+    if len < 24 || a % 4 != 0 { Some(CacheErrorKind::InvalidHeader) }
+    else if header_verdict(h) is Some { header_verdict(h) }
+    else if off_classes(a) > len || off_classes(a) + 28 * h.num_classes as nat > len { Some(CacheErrorKind::InvalidClasses) }
+    else if off_members(a, h) > len || off_members(a, h) + 36 * h.num_members as nat > len { Some(CacheErrorKind::InvalidMembers) }
+    else if off_by_params(a, h) > len || off_by_params(a, h) + 36 * h.num_members_by_params as nat > len { Some(CacheErrorKind::InvalidMembers) }
+    else if off_strings(a, h) > len { Some(CacheErrorKind::UnexpectedStringBytes { expected: h.string_bytes as usize, found: 0 }) }
+    else if len - off_strings(a, h) < h.string_bytes as nat { Some(CacheErrorKind::UnexpectedStringBytes { expected: h.string_bytes as usize, found: (len - off_strings(a, h)) as usize }) }
+    else { None }
+}
+pub proof fn lemma_verdict_none_iff_accepted(a: nat, len: nat, h: raw::Header)
+    ensures (parse_verdict(a, len, h) is None) == accepted(a, len, h),
+{ reveal(pad8); }
 // C11: every strict prefix of a file whose length is exactly the implied length is rejected;
 // any accepted prefix of a longer buffer has the same header and the same section offsets (they are functions of (a, h)).
 pub proof fn lemma_strict_prefix_rejected(a: nat, h: raw::Header, plen: nat)
